@@ -7,7 +7,7 @@ N=${1:-40}
 bad=0
 for id in C05 C08 C09 C10 C11; do
   for s in $(seq 1 $N); do
-    out=$(VERIF_SEED=$((s*7919+13)) sim/target/release/pcsim run $id quick --no-evidence --replay-dir /tmp/sweep-replays 2>&1); rc=$?
+    out=$(VERIF_SEED=$((s*7919+13)) ./check $id quick --no-evidence --replay-dir /tmp/sweep-replays 2>&1); rc=$?
     if [ $rc -ne 0 ]; then bad=1; echo "ALARM $id seed=$((s*7919+13)) exit=$rc"; echo "$out" | grep -E "^(violation|minimised|VIOLATION|harness|KNOWN)" | head -5; fi
   done
   echo "$id: $N seeds done"
